@@ -25,8 +25,8 @@
 From Coq Require Import String.
 From S4.Base Require Import Bytes Chunk.
 From S4.Spec Require LinesSpec WindowSpec RecordsSpec JournalSpec.
-From S4.Gen Require CoordTables FixedStructTables.
-From S4.Model Require Coord Print Summary Gate Year Records RecordRender Journal.
+From S4.Gen Require CoordTables FixedStructTables JournalTables.
+From S4.Model Require Coord Print Summary Gate Year Records RecordRender Journal JournalRender Caches.
 From S4.Model Require Import Program.
 Open Scope N_scope.
 
@@ -39,32 +39,43 @@ Definition ydated_tab (tab : list (string * (Z * Z * Z))) : list N -> option Yea
   let t := map (fun hz => (unhex (fst hz), let '(m, d, tod) := snd hz in Year.mkMsg m d tod)) tab in
   fun l => assoc l t.
 
-(* colour is off in these runs: the highlight span is irrelevant *)
-Definition dtspan0 (l : list N) : nat * nat := (0%nat, 0%nat).
+(* the highlight span of a text line: the generator's table (hex of the line -> dt_beg, dt_end);
+   only used by the --color always invocations (text sources only) *)
+Definition dtspan_tab (tab : list (string * (N * N))) : list N -> nat * nat :=
+  let t := map (fun hz => (unhex (fst hz), (N.to_nat (fst (snd hz)), N.to_nat (snd (snd hz))))) tab in
+  fun l => match assoc l t with Some p => p | None => (0%nat, 0%nat) end.
 
-(* a journal entry of a case carries its text in its only field and its merge instant (ns) in the
-   monotonic slot *)
-Definition jtext_c (e : Journal.entry) : bytes := match Journal.e_fields e with f :: _ => snd f | [] => [] end.
-Definition jinst_c (e : Journal.entry) : Z := match Journal.e_mono e with Some n => Z.of_N n | None => (Journal.e_time e * 1000)%Z end.
-
-Definition mk_oracles (tab : list (string * Z)) (ytab : list (string * (Z * Z * Z))) : oracles :=
-  mkOracles (dated_tab tab) dtspan0 (ydated_tab ytab) RecordRender.f32_int_text jtext_c jinst_c
+Definition mk_oracles (tab : list (string * Z)) (ytab : list (string * (Z * Z * Z))) (stab : list (string * (N * N))) : oracles :=
+  mkOracles (dated_tab tab) (dtspan_tab stab) (ydated_tab ytab) RecordRender.f32_int_text
             Journal.ref_seek_head Journal.ref_seek_realtime.
 
-(* prepend file, align, psep, has fmt, fmt, off, sep, summary, after, before *)
-Definition copts := (bool * bool * string * bool * string * Z * string * bool * option Z * option Z)%type.
+(* stdout with SGR groups abstracted as checks/print_util.abstract_sgr does: ESC followed by the class digit *)
+Definition enc (os : list Print.out) : bytes :=
+  flat_map (fun x => match x with
+                     | Print.OB b => [b]
+                     | Print.OS Print.CDefault => [27; 48]
+                     | Print.OS Print.CText => [27; 49]
+                     | Print.OS Print.CDate => [27; 50]
+                     end) os.
+
+Definition jout_of (n : N) : JournalRender.output := nth (N.to_nat n) JournalRender.all_outputs JournalRender.OShort.
+
+(* prepend file, align, psep, has fmt, fmt, off, sep, summary, after, before; colour, --journal-output
+   (index in JournalRender.all_outputs), fallback zone offset *)
+Definition copts := (bool * bool * string * bool * string * Z * string * bool * option Z * option Z * (bool * N * Z))%type.
 Definition mk_opts (o : copts) : options :=
-  let '(pf, al, ps, hf, fm, off, sep, su, a, b) := o in
-  mkOptions {| Summary.c_colour := false; Summary.c_prepend_file := pf; Summary.c_align := al;
+  let '(pf, al, ps, hf, fm, off, sep, su, a, b, (col, jo, joff)) := o in
+  mkOptions {| Summary.c_colour := col; Summary.c_prepend_file := pf; Summary.c_align := al;
                Summary.c_psep := unhex ps; Summary.c_fmt := if hf then Some (unhex fm) else None;
-               Summary.c_off := off; Summary.c_sep := unhex sep; Summary.c_summary := su |} a b.
+               Summary.c_off := off; Summary.c_sep := unhex sep; Summary.c_summary := su |} a b
+            (jout_of jo) (JournalRender.mkEnv joff true).
 
 Inductive ckind : Type :=
 | CText
 | CYearless (off mtime : Z)
 | CRecords (hint : N) (layout : string)
 | CEvtx (recs : list (option (Z * list string)))
-| CJournal (ents : list (Z * Z * list string)).
+| CJournal (ents : list (Z * string * option N * list (string * string))).   (* receive time us, cursor, monotonic, data objects *)
 
 Definition mk_kind (k : ckind) : pkind :=
   match k with
@@ -73,9 +84,9 @@ Definition mk_kind (k : ckind) : pkind :=
   | CRecords h l => KRecords h (s2b l)
   | CEvtx recs => KEvtxFile (map (option_map (fun tt : Z * list string => (fst tt, unhexs (snd tt)))) recs)
   | CJournal ents =>
-      KJournalFile (map (fun e : Z * Z * list string =>
-                           let '(tus, ins, text) := e in
-                           Journal.mkEntry tus [] (Some (Z.to_N ins)) [([], unhexs text)]) ents)
+      KJournalFile (map (fun e : Z * string * option N * list (string * string) =>
+                           let '(tus, cur, mono, fs) := e in
+                           Journal.mkEntry tus (unhex cur) mono (map (fun kv => (unhex (fst kv), unhex (snd kv))) fs)) ents)
   end.
 
 Definition cfile := (string * N * N * bool * list string * ckind)%type.
@@ -112,6 +123,10 @@ Definition nums_of (t : Summary.summ) : list Z :=
 Definition text_ok_b (dated : list N -> option Z) (f : file) : bool :=
   let gs := LinesSpec.syslines dated f in
   WindowSpec.nondecreasing fst gs && forallb (fun g => 2 <=? lenN (LinesSpec.group_bytes g)) gs.
+(* Program.first_byte_ok through its sufficient condition C01_first_byte_ok_undated: no single byte of the
+   file is dated (the table oracle dates whole first lines) *)
+Definition first_byte_b (dated : list N -> option Z) (f : file) : bool :=
+  forallb (fun c => match dated [c] with None => true | Some _ => false end) f.
 Definition nl_term_b (t : bytes) : bool := match rev t with [] => true | b :: _ => b =? 10 end.
 Fixpoint nondecr_b (l : list Z) : bool :=
   match l with
@@ -119,13 +134,23 @@ Fixpoint nondecr_b (l : list Z) : bool :=
   | x :: r => match r with [] => true | y :: _ => (x <=? y)%Z && nondecr_b r end
   end.
 
+Fixpoint nodup_b (l : list bytes) : bool :=
+  match l with [] => true | x :: r => negb (existsb (beqb x) r) && nodup_b r end.
+
 Definition src_ok_b (O : oracles) (o : options) (pf : pfile) : bool :=
   match pf_kind pf with
-  | KText => text_ok_b (o_dated O) (pf_data pf)
+  | KText => text_ok_b (o_dated O) (pf_data pf) && first_byte_b (o_dated O) (pf_data pf)
   | KYearless off mt =>
-      match yl_table O off mt (pf_data pf) with
-      | Some tab => text_ok_b (yl_dated O tab) (pf_data pf)
-      | None => false
+      let f := pf_data pf in
+      match yl_table O off mt f, yl_table_es O (op_after o) off mt f,
+            walk_until (op_after o) 2 off (Year.year_of_seconds off mt) None (rev (yl_msgs O f)) with
+      | Some tab, Some tes, Some w =>
+          text_ok_b (yl_dated O tab) f && text_ok_b (yl_dated O tes) f && nodup_b (yl_heads O f)
+          && match op_after o with
+             | Some av => forallb (fun m => (filler_inst off m <? av)%Z) (firstn (length (yl_msgs O f) - length w) (yl_msgs O f))
+             | None => true
+             end
+      | _, _, _ => false
       end
   | KRecords hint lname =>
       let f := pf_data pf in
@@ -139,9 +164,8 @@ Definition src_ok_b (O : oracles) (o : options) (pf : pfile) : bool :=
   | KEvtxFile recs => forallb (fun r : option (Z * bytes) => match r with Some (_, t) => nl_term_b t | None => true end) recs
   | KJournalFile j =>
       nondecr_b (Journal.times j) && forallb (fun t => (0 <? t)%Z) (Journal.times j)
-      && forallb (fun e => nl_term_b (o_jtext O e)) j
-      && nondecr_b (map (o_jinst O) (JournalSpec.window Journal.e_time (option_map us_of_ns (op_after o))
-                                                        (option_map us_of_ns (op_before o)) j))
+      && forallb (fun e => nl_term_b (JournalRender.entry_bytes
+                                        (JournalRender.next_entry JournalTables.src_cfg (op_jenv o) (op_jout o) e))) j
   end.
 
 Fixpoint first_bad_src (O : oracles) (o : options) (i : N) (files : list pfile) : option N :=
@@ -150,12 +174,12 @@ Fixpoint first_bad_src (O : oracles) (o : options) (i : N) (files : list pfile) 
   | pf :: r => if src_ok_b O o pf then first_bad_src O o (i + 1) r else Some i
   end.
 
-Definition gate_b (O : oracles) (bs : N) (files : list pfile) : bool :=
+Definition gate_b (O : oracles) (bs : N) (o : options) (files : list pfile) : bool :=
   forallb (fun pf =>
     match pf_kind pf with
     | KText => match Gate.gate (o_dated O) bs (pf_data pf) with Gate.FileOk => true | _ => false end
     | KYearless off mt =>
-        match yl_table O off mt (pf_data pf) with
+        match yl_table_es O (op_after o) off mt (pf_data pf) with
         | Some tab => match Gate.gate (yl_dated O tab) bs (pf_data pf) with Gate.FileOk => true | _ => false end
         | None => false
         end
@@ -163,35 +187,35 @@ Definition gate_b (O : oracles) (bs : N) (files : list pfile) : bool :=
     end) files.
 
 Definition compare (r : list Print.out * Summary.summ) (summary : bool) (out : bytes) (nums : list Z) : N :=
-  match first_diff_bytes 0 (Print.payload (fst r)) out with
+  match first_diff_bytes 0 (enc (fst r)) out with
   | Some k => 1000 + k
   | None => if summary then first_diff_nums 2 (nums_of (snd r)) nums else 0
   end.
 
-Definition summary_of (o : copts) : bool := let '(_, _, _, _, _, _, _, su, _, _) := o in su.
+Definition summary_of (o : copts) : bool := let '(_, _, _, _, _, _, _, su, _, _, _) := o in su.
 
 (* ---- C: the specification *)
-Definition spec_case := (copts * list cfile * list (string * Z) * list (string * (Z * Z * Z)) * N * list string * list Z)%type.
+Definition spec_case := (copts * list cfile * list (string * Z) * list (string * (Z * Z * Z)) * list (string * (N * N)) * N * list string * list Z)%type.
 
 Definition spec_code (c : spec_case) : N :=
-  let '(o, fs, tab, ytab, bs, out, nums) := c in
-  let O := mk_oracles tab ytab in
+  let '(o, fs, tab, ytab, stab, bs, out, nums) := c in
+  let O := mk_oracles tab ytab stab in
   let files := map mk_file fs in
   match first_bad_src O (mk_opts o) 0 files with
   | Some i => 9000000 + i
   | None =>
-      if negb (gate_b O bs files) then 8
+      if negb (gate_b O bs (mk_opts o) files) then 8
       else compare (program_spec O (mk_opts o) files) (summary_of o) (unhexs out) nums
   end.
 
 (* the specification's stdout of a case (for the expected output of a failure report / replay) *)
 Definition spec_stdout (c : spec_case) : bytes :=
-  let '(o, fs, tab, ytab, bs, out, nums) := c in
-  Print.payload (fst (program_spec (mk_oracles tab ytab) (mk_opts o) (map mk_file fs))).
+  let '(o, fs, tab, ytab, stab, bs, out, nums) := c in
+  enc (fst (program_spec (mk_oracles tab ytab stab) (mk_opts o) (map mk_file fs))).
 
 Definition spec_nums (c : spec_case) : list Z :=
-  let '(o, fs, tab, ytab, bs, out, nums) := c in
-  nums_of (snd (program_spec (mk_oracles tab ytab) (mk_opts o) (map mk_file fs))).
+  let '(o, fs, tab, ytab, stab, bs, out, nums) := c in
+  nums_of (snd (program_spec (mk_oracles tab ytab stab) (mk_opts o) (map mk_file fs))).
 
 Definition spec_bad (cs : list spec_case) : list (N * N) :=
   flat_map (fun ic => let c := spec_code (snd ic) in if c =? 0 then [] else [(fst ic, c)]) (index_from 0 cs).
@@ -209,16 +233,23 @@ Definition sched_of (t : list (N * N)) : schedule :=
 Definition model_case := (spec_case * list (N * N))%type.     (* case, trace; the capacity is the regenerated one *)
 Definition cap : N := CoordTables.channel_capacity.
 
+(* reader parameters of the text workers (C01_program_correct holds for every value; nothing of them is
+   observable on stdout / the summary totals): PathId i made 1 + i mod 3 find_line_in_block and 1 + i mod 2
+   find_sysline_in_block calls in block-zero analysis; drop_data_try ran at every opportunity (even i) / at two
+   of three (odd i); the streamed files of the check are .gz (sequential decoder) *)
+Definition rps_run (i : nat) : rparams :=
+  mkRp (1 + Nat.modulo i 3) (1 + Nat.modulo i 2) (if Nat.even i then [true] else [true; false; true]) Caches.KSeq.
+
 Definition model_code (mc : model_case) : N :=
   let '(c, t) := mc in
-  let '(o, fs, tab, ytab, bs, out, nums) := c in
-  let O := mk_oracles tab ytab in
+  let '(o, fs, tab, ytab, stab, bs, out, nums) := c in
+  let O := mk_oracles tab ytab stab in
   let files := map mk_file fs in
   match first_bad_src O (mk_opts o) 0 files with
   | Some i => 9000000 + i
   | None =>
-      if negb (gate_b O bs files) then 8
-      else match program_m O (N.to_nat cap) bs (sched_of t) (mk_opts o) files with
+      if negb (gate_b O bs (mk_opts o) files) then 8
+      else match program_m O (N.to_nat cap) bs rps_run (sched_of t) (mk_opts o) files with
            | POk r => compare r (summary_of o) (unhexs out) nums
            | PWorker _ _ => 21
            | PSchedule => 22
